@@ -38,7 +38,7 @@ VARIABLES hist,          \* calls so far (graph mode: witness path)
           retries, aborts, drains,
           txDid,         \* a dispatch / drain-all call was made in the open transaction
           dispatched,    \* some dispatch / drain-all call has been made
-          late           \* an intent was newly accepted after the first dispatch, or drain-all was used:
+          late           \* an intent was newly accepted after the first dispatch, drain-all was used, or a tick dispatched nothing:
                          \* the behaviour is not a plain "ingest the set, then drain it" run
 gvars == <<hist, obs, retries, aborts, drains, txDid, dispatched, late>>
 allvars == <<vars, gvars>>
@@ -111,7 +111,8 @@ DoDrainAll == /\ UseDrainAll /\ tx # None /\ tx.ack = {}
 DoCommit == /\ tx # None
             /\ (Beh => txDid)
             /\ Commit /\ Emit([a |-> "commit"])
-            /\ UNCHANGED <<retries, aborts, drains, txDid, dispatched, late>>
+            /\ late' = (late \/ ~txDid)          \* a tick that dispatched nothing is not a drain step
+            /\ UNCHANGED <<retries, aborts, drains, txDid, dispatched>>
 DoAbort  == /\ tx # None
             /\ (Beh => (aborts < MaxAbort \/ tx.poisoned))
             /\ Abort /\ Emit([a |-> "abort"])
